@@ -115,6 +115,7 @@ def constants():
     t += _psbt_out_tables()
     t += _psbt_global_tables()
     t += _kinds_tables()
+    t += _json_tables()
     return t
 
 
@@ -492,6 +493,51 @@ def _kinds_tables():
     t += f"/-- `BIP32KeyOrigin.assert_valid`: most indexes a path holds -/\ndef KEYORIGIN_MAX_PATH : Nat := {mx}\n"
     t += f"def LEAF_HASH_SIZE : Nat := {mu.LEAF_HASH_SIZE}\ndef FINGERPRINT_SIZE : Nat := {mu.FINGERPRINT_SIZE}\ndef MUSIG2_PUB_KEY_SIZE : Nat := {mu.MUSIG2_PUB_KEY_SIZE}\n"
     t += f"/-- `assert_valid_psbt_version`: the versions there are -/\ndef PSBT_VERSIONS : List Nat := {lst(sorted([mu.PSBT_V0, mu.PSBT_V2]))}\n"
+    return t
+
+
+def _json_tables():
+    """field names of the JSON form, in the order `to_dict` writes them, and the ones `from_dict` reads, off the
+    syntax tree of each method"""
+    from btclib.tx import out_point, tx_in, tx_out, tx as tx_mod
+    from btclib.script import witness, script as script_mod
+    from btclib.block import block_header
+    from btclib.network import NETWORKS
+
+    def strs(xs):
+        return "[" + ", ".join('"' + x + '"' for x in xs) + "]"
+
+    def written(fn):
+        tree = ast.parse(textwrap.dedent(inspect.getsource(fn)))
+        for n in ast.walk(tree):
+            if isinstance(n, ast.Return) and isinstance(n.value, ast.Dict):
+                return [_const(k) for k in n.value.keys]
+        raise ValueError(f"{fn.__qualname__}: no dict literal returned")
+
+    def read(fn, var="dict_"):
+        tree = ast.parse(textwrap.dedent(inspect.getsource(fn)))
+        out = []
+        for n in ast.walk(tree):
+            if isinstance(n, ast.Subscript) and ast.unparse(n.value) == var and isinstance(n.slice, ast.Constant):
+                out.append((n.lineno, n.col_offset, n.slice.value, True))
+            if isinstance(n, ast.Call) and ast.unparse(n.func) == var + ".get" and n.args:
+                out.append((n.lineno, n.col_offset, _const(n.args[0]), False))
+        seen, req, opt = set(), [], []
+        for _, _, k, must in sorted(out):
+            if k not in seen:
+                seen.add(k)
+                (req if must else opt).append(k)
+        return req, opt
+
+    t = ""
+    for name, cls in (("OUTPOINT", out_point.OutPoint), ("WITNESS", witness.Witness), ("TXIN", tx_in.TxIn),
+                      ("TXOUT", tx_out.TxOut), ("TX", tx_mod.Tx), ("HEADER", block_header.BlockHeader)):
+        req, opt = read(cls.from_dict.__func__)
+        t += f"/-- `{cls.__name__}.to_dict`: the keys, in the order written -/\ndef JSON_{name}_KEYS : List String := {strs(written(cls.to_dict))}\n"
+        t += f"/-- `{cls.__name__}.from_dict`: the keys read (required, then optional) -/\ndef JSON_{name}_READ : List String := {strs(req)}\ndef JSON_{name}_OPTIONAL : List String := {strs(opt)}\n"
+    req, opt = read(script_mod.script_from_dict, "value")
+    t += f"def JSON_SCRIPT_KEYS : List String := {strs(written(script_mod.script_to_dict))}\ndef JSON_SCRIPT_READ : List String := {strs(req)}\ndef JSON_SCRIPT_OPTIONAL : List String := {strs(opt)}\n"
+    t += f"/-- `network.NETWORKS`: the names `ScriptPubKey.assert_valid` admits -/\ndef NETWORK_NAMES : List String := {strs(list(NETWORKS))}\n"
     return t
 
 
